@@ -1,4 +1,5 @@
 """C12 -- Time to beat conversion inverts beat to time on the tick grid."""
+import math
 import random
 from fractions import Fraction
 
@@ -20,7 +21,7 @@ LEVEL_NOTE = "Relies on C11 for time_at (boundary floats come from the engine it
 RULE = c11.RULE + " Each case asks ~300-1500 (time, tag) questions per engine."
 EXHAUSTIVE_PART = c11.EXHAUSTIVE_PART
 ASSUMPTIONS = ["time_at is correct (C11)", "times stay below 1e5 s so float resolution is far below a tick"]
-MONITORS = ["roundtrip", "pause_interior", "window", "warp_stretch", "monotone", "independence", "order_independence"]
+MONITORS = ["roundtrip", "pause_interior", "window", "warp_stretch", "monotone", "independence", "order_independence", "absolute_times"]
 REQUIRED = ["stop_inside_warp", "stop_at_warp_start", "delay_inside_warp", "pause_at_warp_end", "warp_at_beat_0",
             "bpm_change_inside_warp", "nested_warps", "touching_warps", "corpus"]
 TICK = Fraction(1, 48)
@@ -101,7 +102,7 @@ def specs_for(eng, tl, beats, rng_seed, tags):
             if len(seen) % 5 == 0:
                 out.append(("boundary", (x, int(tag)), ("time_at", x, tag), tags[len(seen) % 7]))
     for b in tl.pause_beats():
-        for f in (0.25, 0.5, 0.75):
+        for f in (0.25, 0.5, 0.75, "first-ulp", "last-ulp"):
             for tag in (None, EventTag.WARP, tags[(len(out) + 1) % 7]):
                 out.append(("pause", b, ("pause", b, f), tag))
     pauses = tl.pause_beats()
@@ -135,7 +136,14 @@ def plan(eng, specs):
         else:
             t0 = float(eng.time_at(B(src[1]), EventTag.WARP))
             t1 = float(eng.time_at(B(src[1]), EventTag.STOP_END))
-            t = t0 + src[2] * (t1 - t0)
+            if src[2] == "first-ulp":
+                t = math.nextafter(t0, math.inf)      # strictly inside the pause, one ulp after it begins
+            elif src[2] == "last-ulp":
+                t = math.nextafter(t1, -math.inf)     # strictly inside the pause, one ulp before it ends
+            else:
+                t = t0 + src[2] * (t1 - t0)
+            if not (t0 < t < t1):
+                t = (t0 + t1) / 2
         out.append((kind, info, t, asktag))
     return out
 
@@ -232,6 +240,24 @@ def check(ctx, case):
                 ctx.violation(f"monotone:beat-decreases:tag{_t(tag)}",
                               {"t1": t1, "beat1": str(b1), "t2": t2, "beat2": str(b2), "timing": timing})
                 break
+    # two engines built back to back for offsets -1 and -2, judged at reference times (not their own time_at)
+    if case["kind"] != "grid" or ctx.evaluations % 4 == 0:
+        for off in ("-1", "-2"):
+            t_off = dict(timing, offset=off)
+            e_off = G.build_engine(t_off)
+            tl_off = G.build_timeline(t_off)
+            ctx.mon("absolute_times")
+            for b in tl_off.pause_beats()[:6]:
+                mid = (float(tl_off.time(b, 0)) + float(tl_off.time(b, 6))) / 2
+                got = e_off.beat_at(mid)
+                if Fraction(got) != b:
+                    ctx.violation("absolute:pause-midpoint-at-reference-time-not-paused-beat",
+                                  {"offset": off, "pause_beat": str(b), "time": mid, "got": str(got), "timing": timing})
+                    break
+            got0 = e_off.beat_at(float(tl_off.time(Fraction(-1))))
+            if Fraction(got0) != -1:
+                ctx.violation("absolute:beat-minus-one-at-reference-time", {"offset": off, "got": str(got0), "timing": timing})
+
     # independence from unrelated earlier events
     for ei in (1, 2):
         ctx.mon("independence", len(p))
